@@ -279,7 +279,7 @@ func main() {
 	run.Rule("codec level: case = (generation, reader constructor, decode program or generated type, input); inputs = every string of up to N tokens over the ROR2, JSON and query-string delimiter alphabets, every truncation and sampled single edits of valid encodings of generated values in all five wire formats, 50 hostile untyped Go values; " +
 		"HTTP level: case = (mounting, generated method, mutated request or mutated response), see the http.* counters. A panic recovered from library code, a 5xx / stack trace / dropped connection for any request against resources that always succeed, an invocation for a request whose body or key does not parse, or a panic in the caller's goroutine is a violation; a stalled worker is re-run alone before it counts. " +
 		"distinct = distinct (format, program or type, outcome class) for the codec level + (method kind, mutation class, status class) for HTTP")
-	run.Assume("readers whose inner reader is not consumed by the callback are documented as undefined and are not exercised", "cyclic Go values are not fed to the interface reader", "generated decoders: both generations for decoding (root through types-only bindings); HTTP level: v2; Reader-interface programs: both generations")
+	run.Assume("readers whose inner reader is not consumed by the callback are documented as undefined and are not exercised", "cyclic Go values are not fed to the interface reader", "generated decoders, HTTP level and Reader-interface programs: both generations (root through bindings written by its own generator)")
 	rng := rand.New(rand.NewSource(run.Seed))
 	if len(all.Sets) == 0 {
 		run.Inconclusive("no generated schema sets")
@@ -469,7 +469,14 @@ func main() {
 			run.Distinct("program|" + f + "|" + p)
 		}
 	}
-	httpLevel(run, ks, rng)
+	gen2.HTTPLevel(run, rng)
+	gen1.HTTPLevel(run, rand.New(rand.NewSource(run.Seed+4)))
+	run.Require("v2.http.server.requests", 1000)
+	run.Require("v2.http.server.malformed_rejected", 100)
+	run.Require("v2.http.client.responses", 500)
+	run.Require("root.http.server.requests", 1000)
+	run.Require("root.http.server.malformed_rejected", 100)
+	run.Require("root.http.client.responses", 500)
 	run.Require("inputs.key-chain", 1000)
 	run.Require("inputs.ror2-alphabet", 1000)
 	run.Require("inputs.json-alphabet", 1000)
